@@ -408,5 +408,45 @@ def qGoodCheck (target : MG Name) (ds : List Domain) (o c : Ctf.Event) : Bool :=
 def popsCoverCheck (target : MG Name) (ds : List Domain) : Bool :=
   target.nodes.all fun n => ds.any fun d => Ctf.mem' (Var.plain n) (Expr.iterVars d.pop)
 
+/-! ### the class of simplified events covered by the value theorem of Algorithm 2 (Y0/Props/C09Sound.lean); decidable,
+reported by the driver (`ctftr uncond`) so that the harness can tie the theorem to the oracle -/
+
+/-- every valueless item `(W_s, None)` becomes `(W_s, -W)`: the reading in which a valueless variable is a free variable
+of the answer, read at its base value -/
+def _root_.Y0.Ctf.fillEvent (q : Ctf.Event) : Ctf.Event :=
+  q.map fun p => (p.1, match p.2 with | some i => some i | none => some ⟨p.1.name, false⟩)
+
+/-- a STARRED literal subscript `+X` of the query names a vertex of `An(Y_*)` that is summed out: in the answer of
+Algorithm 2 the transported factor reads `X` at the bound value, not at `+X` (C19's `literalBound` is the unstarred half:
+there the factorised expression itself is already wrong) -/
+def starBound (q : Ctf.Event) (D : List Var) : Bool :=
+  q.any fun p => p.1.ivs.any fun i =>
+    i.star && decide (i.name ∈ D.map (·.name)) && decide (i.name ∉ q.map (·.1.name))
+
+/-- **the class of (simplified, filled) events the value theorem covers**: readable (no self-intervened variable, no
+variable intervening twice on one name), and outside `multiWorld` / `literalBound` / `outcomeParentValue` (C19) and
+`starBound` -/
+def ctfSoundClass (g : MG Name) (q : Ctf.Event) : Except Err Bool := do
+  let D ← Ctf.ancestralSet g q
+  pure (Ctf.readableQuery q && !Ctf.multiWorld D && !Ctf.literalBound q D && !Ctf.outcomeParentValue g q D &&
+    !starBound q D)
+
+/-- some valuation carries "the returned event's values": no name receives two different value symbols (as event value
+or as subscript) -/
+def readingExists (q : Ctf.Event) : Bool :=
+  let syms : List Iv := q.flatMap fun p => (match p.2 with | some i => [(⟨p.1.name, i.star⟩ : Iv)] | none => []) ++ p.1.ivs
+  syms.all fun a => syms.all fun b => a.name != b.name || a.star == b.star
+
+/-- is an answered unconditional query inside the hypotheses of `ctfTRu_sound_free_partial` that are decidable
+predicates on the input (no self-intervened variable; the simplified event, valueless items filled, in `ctfSoundClass`;
+a reading of the returned event's values exists)? -/
+def ctfTRuInClass (target : MG Name) (domains : List Domain) (event : Ctf.Event) : Bool :=
+  match ctfTRu target domains event with
+  | .ok (some (_, some ev)) =>
+      event.all (fun p => !Ctf.selfIntervened p.1) &&
+        (match ctfSoundClass target (Ctf.fillEvent ev) with | .ok b => b | .error _ => false) &&
+        readingExists (Ctf.fillEvent ev)
+  | _ => false
+
 end CtfTr
 end Y0
